@@ -3,6 +3,7 @@ mod c10;
 mod c11;
 mod consumer;
 mod c13;
+mod c16;
 mod c18;
 mod coq;
 mod extract;
@@ -37,6 +38,7 @@ fn main() {
         "c13" => c13::run(&out, &tier, seed, shards),
         "c10" => c10::run(&out, &tier, seed, shards, replay),
         "c18" => c18::run(&out, &tier, seed, shards, replay),
+        "c16" => c16::run(&out, &tier, seed, shards, replay),
         "c11" => c11::run(&out, &tier, seed, shards, replay),
         other => {
             eprintln!("unknown command {}", other);
